@@ -113,7 +113,7 @@ func (fr *Frame) globalAddr(g *ssa.Global) *Addr {
 	}
 	if _, ok := vc.DB.ConstGlobals[shortPkg(g.Pkg.Pkg.Path())+"."+g.Name()]; ok && fr.fn.Name() != "init" {
 		// assigned once in init with a fresh object: a constant address
-		return &Addr{Kind: "const", Ref: vc.globalRef(g.Pkg.Pkg.Path(), "@"+g.Name()), Sort: vc.sortOf(elem), Typ: elem}
+		return &Addr{Kind: "const", Ref: vc.constGlobalTerm(g.Pkg.Pkg.Path(), g.Name(), vc.sortOf(elem)), Sort: vc.sortOf(elem), Typ: elem}
 	}
 	sort := vc.sortOf(elem)
 	hv := vc.heapVar("G!"+shortPkg(g.Pkg.Pkg.Path())+"."+g.Name(), sort)
@@ -1270,6 +1270,10 @@ func (fr *Frame) sliceOp(x *ssa.Slice, st *State, reach string) {
 		}
 		fr.safety(st, reach, "slice", fmt.Sprintf("(and (<= 0 %s) (<= %s %s) (<= %s (s_cap %s)))", lo, lo, hi, hi, v), x.Pos())
 		fr.vals[x] = vc.def(fr.name(x), "Slice", fmt.Sprintf("(mk_slice (s_base %s) (+ (s_off %s) %s) (- %s %s) (- %s %s))", v, v, lo, hi, lo, mx, lo))
+		if isByteSlice(x.X.Type()) && vc.useSeq {
+			// content of a sub-slice (instantiated sequence fact)
+			vc.assume(reach, fmt.Sprintf("(=> (and (<= 0 %s) (<= %s %s) (<= %s (s_len %s))) (= %s (seq_sub %s %s %s)))", lo, lo, hi, hi, v, vc.viewOf(st, fr.vals[x]), vc.viewOf(st, v), lo, hi))
+		}
 	case *types.Basic: // string
 		if hi == "" {
 			hi = fmt.Sprintf("(strlen %s)", v)
